@@ -753,5 +753,7 @@ RULES = [
     ("C02.enosys", rule_compat),
     ("C02.leader", rule_leader),
     ("C02.qs", rule_qs),
+    ("C02.nest", lambda c, r: pat.shared(__import__("sa.rules.c01", fromlist=["x"]).rule_rlock, "C02.nest", lambda x: "every-path" in x["instance"] or "nested-increment" in x["instance"] or x["status"] != "pass")(c, r)),   # a reader `leaves` only if its last unlock is recognised as outermost: every unlock takes one level off
+    ("C02.nest", lambda c, r: pat.shared(__import__("sa.rules.c01", fromlist=["x"]).rule_runlock, "C02.nest", lambda x: "every-path" in x["instance"] or x["status"] != "pass")(c, r)),
 ]
 FLOORS = {}
